@@ -228,3 +228,11 @@ impl VRpcClient {
         self.0.call(ctx, &rpc::get_block::Req(zksync_consensus_roles::validator::BlockNumber(n)), zksync_protobuf::kB).await.map(|_| ()).map_err(|e| format!("{e:#}"))
     }
 }
+
+// ---------------------------------------------------------------------------------------------
+// The node state as the debug page (`debug_page::Server`) sees it.
+
+/// `crate::Network` assembled from existing parts (its public constructor always builds new ones).
+pub fn node_state(gossip: &gossip::verif::VGossip, consensus: Option<&consensus::verif::VConsensus>) -> Arc<crate::Network> {
+    Arc::new(crate::Network { gossip: gossip.0.clone(), consensus: consensus.map(|c| c.state()) })
+}
